@@ -160,4 +160,34 @@ def isPalindrome (s : St c) : Bool := c.K % 2 == 0 && s == rc c s
 def extend (s : St c) (v : Nat) (dirRight : Bool) : St c :=
   if dirRight then extendRight c s v else extendLeft c s v
 
+/-! ### `KmerOneHammingIter` (neighbors.rs): all k-mers at Hamming distance 1 -/
+
+/-- iterator state: the source k-mer, the position being mutated, the next base to try (`u8`) -/
+structure HIter where
+  source : St c
+  position : Nat
+  ch : Nat
+
+/-- `Iterator::next` (recursive in the source as well): skip the base already there, move on after base 3 -/
+def HIter.next (it : HIter c) : HIter c × Option (St c) :=
+  if c.K ≤ it.position then (it, none)
+  else if 4 ≤ it.ch then HIter.next ⟨it.source, it.position + 1, 0⟩
+  else if get c it.source it.position = it.ch then HIter.next ⟨it.source, it.position, it.ch + 1⟩
+  else (⟨it.source, it.position, it.ch + 1⟩, some (setMut c it.source it.position it.ch))
+termination_by (c.K - it.position, 5 - it.ch)
+decreasing_by
+  · simp_wf; apply Prod.Lex.left; omega
+  · simp_wf; apply Prod.Lex.right; omega
+
+/-- `KmerOneHammingIter::new(kmer).collect()`, at most `fuel` items -/
+def HIter.collect : Nat → HIter c → List (St c)
+  | 0, _ => []
+  | fuel + 1, it =>
+    match HIter.next c it with
+    | (_, none) => []
+    | (it', some x) => x :: HIter.collect fuel it'
+
+/-- all neighbours, in iteration order (there are at most `3 K`) -/
+def hd1 (s : St c) : List (St c) := HIter.collect c (4 * c.K) ⟨s, 0, 0⟩
+
 end Kmer
